@@ -1,8 +1,64 @@
-(* C16 property theorems (placeholder while the proofs are being written). *)
+(* C16 property theorems. Nothing but statements closed by `exact lemma`, Print Assumptions and non-vacuity Examples.
+   apply true true = the repaired step function (new shard groups clipped to their live neighbours; dropping the default
+   policy clears the default name); apply false false = today's code, refuted in Refuted.v. *)
 From Coq Require Import ZArith List Bool.
-From OG Require Import C16.Model.
+From OG Require Import C16.Model C16.Wf C16.Proofs C16.ProofsCmd C16.ProofsSg C16.ProofsRun.
 Import ListNotations.
 Open Scope Z_scope.
 
-Example C16_init_wf_b : forall per sc, wf_b (init_cat per sc) = true.
-Proof. intros. reflexivity. Qed.
+(* the boolean the correspondence evaluates on dumps of the REAL catalogue is the statement *)
+Theorem C16_wf_b_is_wf : forall c, wf_b c = true <-> wf c.
+Proof. exact wf_b_iff. Qed.
+Print Assumptions C16_wf_b_is_wf.
+
+Theorem C16_wf_init : forall per sc, wf (init_cat per sc).
+Proof. exact wf_init. Qed.
+Print Assumptions C16_wf_init.
+
+(* every one of the 19 modelled commands, with any arguments (valid or not), preserves well-formedness:
+   live groups of a policy and engine type pairwise disjoint, inside one cell of their creation-time duration, list sorted;
+   all ids unique, positive, at most their counters; every shard's index and owner partitions exist; defaults resolve. *)
+Theorem C16_wf_preserved : forall c x, wf c -> env_ok c x -> wf (fst (apply_repaired c x)).
+Proof. exact wf_step. Qed.
+Print Assumptions C16_wf_preserved.
+
+(* after every single step of every command sequence *)
+Theorem C16_wf_every_prefix : forall xs k per sc, env_run (init_cat per sc) xs -> wf (run true true (init_cat per sc) (firstn k xs)).
+Proof. intros xs k per sc. apply wf_run_prefix. apply wf_init. Qed.
+Print Assumptions C16_wf_every_prefix.
+
+(* a command that fails leaves the catalogue unchanged (both variants) *)
+Theorem C16_failed_identity : forall clip cleardef c x, snd (apply clip cleardef c x) = false -> fst (apply clip cleardef c x) = c.
+Proof. exact failed_is_identity. Qed.
+Print Assumptions C16_failed_identity.
+
+(* id counters never decrease (both variants); together with C16_wf_preserved (ids are unique and at most the counters in
+   every reachable state, fresh ids are taken above the counter) this is the monotone-history half of "ids are never
+   handed out twice". PARTIAL: the statement "an id that disappeared never reappears" is not proved as a theorem over
+   runs - it needs, for each of the 16 non-issuing commands, that the id sets do not grow; that part is checked on the
+   real catalogue by the harness oracle (id-reused) after every step. *)
+Theorem C16_ids_never_reused_partial : forall clip cleardef c x, 0 <= ptnum c -> 0 <= ptper c ->
+  counters_le c (fst (apply clip cleardef c x)).
+Proof. exact counters_mono. Qed.
+Print Assumptions C16_ids_never_reused_partial.
+
+(* the repaired creation: the new group contains the instant, is inside one cell, and is disjoint from every live group *)
+Theorem C16_new_group_disjoint : forall c p ig t eng,
+  existsb (fun g => covers g t eng) (rp_sgs p) = false -> 0 < rp_sgdur p -> t < MAXNANO1 ->
+  aligned (new_sgroup true c p ig t eng) /\ Forall (disjoint2 (new_sgroup true c p ig t eng)) (rp_sgs p).
+Proof. exact new_sgroup_ok. Qed.
+Print Assumptions C16_new_group_disjoint.
+
+(* non-vacuity: the environment hypotheses are satisfiable on a run that creates, alters, deletes and prunes *)
+Definition example_run : list cmd :=
+  [CreateNode 1 1; CreateDb 1 1 0 HOUR; CreateMst 1 1 1; CreateSg 1 1 1700042400000000005 0;
+   UpdateRp 1 1 None (Some DAY) false; CreateSg 1 1 1700053200000000000 0; CreateNode 2 2; CreateSg 1 1 0 0;
+   DeleteSg 1 1 1; PruneSg 1; PruneIg 77; MarkRp 1 1; DropRp 1 1; CreateSg 1 0 5 0].
+
+Example C16_example_env : env_run (init_cat 1 true) example_run.
+Proof. apply env_run_b_sound. vm_compute. reflexivity. Qed.
+
+Example C16_example_state :
+  let c := run true true (init_cat 1 true) example_run in
+  wf_b c = true /\ map db_default (dbs c) = [0].
+Proof. vm_compute. repeat split. Qed.
